@@ -38,7 +38,9 @@
 (* A definition  d = [id, ex, ni, nx, base, quote, kind, settle, unit]     *)
 (*   ex: exchange; ni / nx: internal / exchange name of the instrument;    *)
 (*   base, quote, settle, unit: Asset records [a |-> internal name,        *)
-(*   nx |-> exchange name] (NoAsset where absent); kind: "spot" | "perp".  *)
+(*   nx |-> exchange name] (NoAsset where absent); kind: "spot" | "perp" | *)
+(*   "future" | "option" (the three contract kinds carry a settlement      *)
+(*   asset; expiry / strike / option style are constants of the harness).  *)
 (*   `unit` is the asset of OrderQuantityUnits::Asset in the optional spec.*)
 (*                                                                         *)
 (* Ordering.  The builder sorts with the derived `Ord` of the Rust types:  *)
@@ -86,9 +88,12 @@ LexLess(s, t) == \E i \in DOMAIN s : s[i] < t[i] /\ \A j \in 1..(i - 1) : s[j] =
 ExKey(e)  == <<e>>
 EAKey(x)  == <<x.ex, x.a, x.nx>>
 \* Instrument { exchange, name_internal, name_exchange, underlying{base,quote}, quote,
-\*              kind (Spot < Perpetual{contract_size, settlement_asset}), spec (None < Some) }
+\*              kind (Spot < Perpetual < Future < Option, each contract {contract_size,
+\*              settlement_asset, ..}), spec (None < Some) }
+KindRank(k) == CASE k = "spot" -> 0 [] k = "perp" -> 1 [] k = "future" -> 2 [] k = "option" -> 3
+HasSettlement(d) == d.kind # "spot"
 DefKey(d) == <<d.ex, d.ni, d.nx, d.base.a, d.base.nx, d.quote.a, d.quote.nx,
-               IF d.kind = "spot" THEN 0 ELSE 1, d.settle.a, d.settle.nx,
+               KindRank(d.kind), d.settle.a, d.settle.nx,
                IF d.unit = NoAsset THEN 0 ELSE 1, d.unit.a, d.unit.nx>>
 
 \* sort + dedup of a vector whose elements form the set S
@@ -110,7 +115,7 @@ Filter(n, P(_), F(_)) ==
 (* add_instrument: what is pushed for one definition                       *)
 (***************************************************************************)
 AssetsOfDef(d) == <<EA(d.ex, d.base), EA(d.ex, d.quote)>>
-                  \o (IF d.kind = "perp" THEN <<EA(d.ex, d.settle)>> ELSE <<>>)
+                  \o (IF HasSettlement(d) THEN <<EA(d.ex, d.settle)>> ELSE <<>>)   \* perpetual, future, option
                   \o (IF d.unit # NoAsset THEN <<EA(d.ex, d.unit)>> ELSE <<>>)
 
 (***************************************************************************)
@@ -132,7 +137,7 @@ BuildFromSets(XS, AS, DS) ==
              kind   |-> d.kind,
              base   |-> FindAsset(A, d.ex, d.base.a),
              quote  |-> FindAsset(A, d.ex, d.quote.a),
-             settle |-> IF d.kind = "perp" THEN FindAsset(A, d.ex, d.settle.a) ELSE None,
+             settle |-> IF HasSettlement(d) THEN FindAsset(A, d.ex, d.settle.a) ELSE None,
              unit   |-> IF d.unit # NoAsset THEN FindAsset(A, d.ex, d.unit.a) ELSE None]
     IN  [ex |-> X, as |-> A, ins |-> [p \in 1..Len(D) |-> Ins(p)]]
 
@@ -351,7 +356,7 @@ Resolve == AtBuild => \A p \in DOMAIN tables.ins :
     IN  /\ i.xk # None /\ tables.ex[i.xk] = d.ex /\ i.ex = d.ex
         /\ i.ni = d.ni /\ i.nx = d.nx /\ i.kind = d.kind
         /\ At(i.base, d.base) /\ At(i.quote, d.quote)
-        /\ IF d.kind = "perp" THEN At(i.settle, d.settle) ELSE i.settle = None
+        /\ IF HasSettlement(d) THEN At(i.settle, d.settle) ELSE i.settle = None
         /\ IF d.unit # NoAsset THEN At(i.unit, d.unit) ELSE i.unit = None
 
 \* the result depends only on the set of definitions (not on order or multiplicity)
@@ -453,7 +458,7 @@ EnvOKFor(U) ==
     /\ \A d1, d2 \in U : (d1 # d2 /\ d1.ex = d2.ex) => d1.nx # d2.nx              \* per exchange
     /\ \A x, y \in eas : (x.ex = y.ex /\ x.a = y.a) => x.nx = y.nx               \* one name per (e, asset)
     /\ \A x, y \in eas : (x.ex = y.ex /\ x.nx = y.nx) => x.a = y.a               \* injective per exchange
-    /\ \A d \in U : d.kind \in {"spot", "perp"} /\ (d.kind = "perp" <=> d.settle # NoAsset)
+    /\ \A d \in U : d.kind \in {"spot", "perp", "future", "option"} /\ (HasSettlement(d) <=> d.settle # NoAsset)
 
 ASSUME EnvOK == EnvOKFor(Universe)
 
@@ -470,13 +475,13 @@ Def(id, e, ni, nx, b, q, kind, s, u) ==
      settle |-> IF s = 0 THEN NoAsset ELSE A(e, s), unit |-> IF u = 0 THEN NoAsset ELSE A(e, u)]
 
 U7 == { Def(1, 2, 5, 1, 1, 5, "spot", 0, 0),     \* BinanceSpot ins05 SYM01 btc/usdt
-        Def(2, 2, 2, 2, 2, 5, "spot", 0, 2),     \* BinanceSpot ins02 SYM02 eth/usdt, quantity in eth
+        Def(2, 2, 2, 2, 2, 5, "future", 4, 0),   \* BinanceSpot ins02 SYM02 eth/usdt future settled in usdc
         Def(3, 3, 4, 3, 1, 5, "spot", 0, 0),     \* Kraken      ins04 SYM03 btc(XBT)/usdt
         Def(4, 3, 1, 1, 2, 1, "spot", 0, 0),     \* Kraken      ins01 SYM01 eth/btc(XBT)
         Def(5, 3, 6, 4, 1, 5, "perp", 4, 0),     \* Kraken      ins06 SYM04 btc/usdt perpetual settled in usdc
         Def(6, 1, 3, 2, 3, 4, "spot", 0, 3),     \* Mock        ins03 SYM02 sol/usdc, quantity in sol
-        Def(7, 1, 7, 5, 1, 4, "perp", 1, 5) }    \* Mock        ins07 SYM05 btc/usdc perpetual settled in btc, quantity in usdt
+        Def(7, 1, 7, 5, 2, 5, "option", 4, 1) }  \* Mock        ins07 SYM05 eth/usdt option settled in usdc, quantity in btc
 
 U9 == U7 \cup { Def(8, 4, 8, 3, 2, 5, "spot", 0, 0),     \* Okx ins08 SYM03 eth/usdt
-                Def(9, 4, 9, 6, 3, 5, "perp", 5, 3) }    \* Okx ins09 SYM06 sol/usdt perpetual settled in usdt, quantity in sol
+                Def(9, 4, 9, 6, 3, 5, "perp", 1, 3) }    \* Okx ins09 SYM06 sol/usdt perpetual settled in btc, quantity in sol
 =============================================================================
